@@ -347,6 +347,64 @@ func CheckC09(run *ev.Run) {
 			}
 		}
 	}
+	// (d) struct tags: `--struct-tags description|example` copies free text into the field tag (generator.PrintTags, Go code, no
+	// template site); in every order with other tags the declaration skeleton must not change
+	tagSets := [][]string{{"description", "yaml"}, {"yaml", "description"}, {"example", "db"}, {"description"}, {"json", "example", "description", "xml"}}
+	tagFields := []string{"property.description", "property.example", "property.enum.description", "array.description"}
+	tagPayloads := []string{"a` }; var ZQInjected = 1; type ZQT struct { F int `b", "a\" zq:\"b", "a` }\nvar ZQInjected = 1\ntype ZQT struct { F int `b", "a`b"}
+	if run.Tier != "thorough" && run.Lean.OK {
+		tagSets = tagSets[:3]
+		tagPayloads = tagPayloads[:2]
+	}
+	renderModel := func(tag string, spec []byte, tags []string) (string, string, error) {
+		root, specPath, target, err := NewTarget(tag, spec)
+		if err != nil {
+			return "", "", err
+		}
+		args := []string{"-f", specPath, "-t", target}
+		for _, t := range tags {
+			args = append(args, "--struct-tags", t)
+		}
+		return root, target, GenInProc("model", args, nil)
+	}
+	for _, ts := range tagSets {
+		rootT, tN, err := renderModel("c09t", TextSpec(neutralVals), ts)
+		if err != nil {
+			_ = os.RemoveAll(rootT)
+			run.Broken("tie:neutral-render-tags", fmt.Sprintf("the neutral marker spec does not generate with --struct-tags %v: %v", ts, err), nil)
+			continue
+		}
+		skT, _ := declSkeleton(tN)
+		_ = os.RemoveAll(rootT)
+		for _, f := range tagFields {
+			for pi, payload := range tagPayloads {
+				vals := map[string]string{}
+				for k, v := range neutralVals {
+					vals[k] = v
+				}
+				vals[f] = payload
+				spec := TextSpec(vals)
+				root, t, gerr := renderModel("c09u", spec, ts)
+				run.Case(fmt.Sprintf("tags%v|%s|%d", ts, f, pi))
+				if gerr != nil {
+					st["tags:generation-fails"]++
+					_ = os.RemoveAll(root)
+					continue
+				}
+				sk, injected := declSkeleton(t)
+				delta := skeletonDiff(skT, sk)
+				_ = os.RemoveAll(root)
+				if injected || len(delta) > 0 {
+					st["tags:INJECTED"]++
+					run.Deviation("injection:model:struct-tag:"+f, fmt.Sprintf("free text in %s escapes the struct tag written for --struct-tags %v: files with a different declaration skeleton %v, injected identifier present: %v", f, ts, delta, injected),
+						map[string]interface{}{"field": f, "payload": payload, "struct_tags": ts, "files": delta, "spec": json.RawMessage(spec),
+							"how": "swagger generate model -f spec.json -t target --struct-tags <each>, then look for ZQInjected in the listed files"})
+				} else {
+					st["tags:contained"]++
+				}
+			}
+		}
+	}
 	if len(run.Samples) == 0 {
 		run.Sample(map[string]interface{}{"field": "operation.summary", "payload": payloadFor("block"), "sites": len(sites)})
 		for f, v := range notOK {
